@@ -79,6 +79,9 @@ func swarmGen(r *rand.Rand, initial int64) GenCfg {
 	if r.Intn(4) == 0 {
 		g.EqualStake = true
 	}
+	if r.Intn(3) == 0 {
+		g.EqualPools = true
+	}
 	return g
 }
 
